@@ -3,6 +3,7 @@ from checks.worldcheck import Spec, replayed_delivery
 
 PROP = "C03"
 ERR = {"kind": "client", "status": 500, "code": "ServiceException", "message": "boom"}
+from checks.c18 import ERRS  # noqa: E402
 
 
 def explicit(tier, seed):
@@ -40,7 +41,8 @@ def explicit(tier, seed):
         for k in range(1, 7 if tier == "quick" else 12):
             for delay in (0, 25):
                 yield {"label": "fault-" + name, "prog": {"body": body}, "prog_seed": 23000 + i, "pattern": {"p": "plain"}, "max_inv": 20,
-                       "faults": [{"match": {"op": "checkpoint", "n": k}, "err": ERR, "when": rng.choice(["before", "before", "after"]), "delay_ms": delay}],
+                       "faults": [{"match": {"op": "checkpoint", "n": k}, "err": ERR if delay else ERRS[(k + i) % len(ERRS)],
+                                   "when": rng.choice(["before", "before", "after"]), "delay_ms": delay}],
                        "opts": {"hang_s": 3.0}}
                 i += 1
             # the same failure while the thread that signals (sets an event, puts on a queue, releases a lock) loses the CPU right after
